@@ -434,3 +434,57 @@ reg["C16"]["explanation"] += "; two workers running store.Process at once are se
 reg["C15"]["explanation"] += "; acceptance obligations (sat queries over all executions reaching the kernel): the boundary values of a well-formed request - zero and large leases and timeouts, each completion state, with and without idempotency key, both receiver forms - are accepted by each front end"
 reg["C19"]["harnesses"].append({"name": "VH_SN_Resolve2", "pkg": "internal/app/subsystems/aio/sender", "labels": ["C19:"], "reach": ["second-message"]})
 reg["C19"]["explanation"] += "; a second message handled by the same sender worker is resolved by its own stored receiver exactly as a first one"
+
+# ---- history independence (quick tier): the checked request runs in a process that has already served other
+# requests (vhWarm); what the process remembers must not matter because the database it then meets is arbitrary
+WARM = {"C01": ["VH_P_Complete", "VH_P_Read"], "C03": ["VH_P_Create"], "C04": ["VH_P_TimeoutSweep"], "C05": ["VH_CB_CreateCallback"], "C07": ["VH_C07_Claim"], "C08": ["VH_D_Enqueue"],
+        "C09": ["VH_L_Acquire"], "C10": ["VH_S_Fire"], "C11": ["VH_S_Fire"], "C14": ["VH_P_Search", "VH_S_Search"], "C20": ["VH_S_Fire", "VH_P_Read"], "C02": ["VH_P_Create", "VH_C07_Claim"]}
+for k, names in WARM.items():
+    for n in names:
+        src = [h for h in reg[k]["harnesses"] if h["name"] == n and h["pkg"] == CO and h.get("opts", {}).get("backend", 0) == 0 and h.get("opts", {}).get("warm", 0) == 0]
+        if not src:
+            continue
+        h = dict(src[0]); h["opts"] = dict(h["opts"]); h["opts"]["warm"] = 1; h["opts_thorough"] = dict(h["opts"])  # same bounds in both tiers
+        reg[k]["harnesses"].append(h)
+    reg[k]["explanation"] += "; history independence: selected request coroutines are also run after an earlier stretch of the same process's life (promise created/read/completed, schedule created/fired/deleted, lock taken/released, every sweep once; arbitrary ids, templates, keys, data), after which the database is arbitrary - process-held state (caches, retained buffers) is thereby stale by construction"
+
+# ---- seventh round (variants H)
+ensure("C08", CB_H + PROMISE_H, ["O2:I3", "O2:G3", "C05:root-equals-leaf-refused", "C05:invalid-promise-writes-nothing"])
+reg["C08"]["explanation"] += "; a resume callback never awaits its own root (invariant I3; CreateCallback refuses it), which the completion transaction relies on when it finishes the tasks rooted at a completed promise before turning that promise's callbacks into tasks"
+for h in reg["C06"]["harnesses"]:
+    if h["name"] in ("VH_D_CreateRouted", "VH_D_CreateWithTask"):
+        h["labels"] = sorted(set(h["labels"] + ["C08:routed-promise-gets-its-task-in-the-same-step", "C08:router-error", "C08:create-with-task-refused", "C08:unrouted"]))
+reg["C06"]["explanation"] += "; a routed promise and its invocation task are written by one transaction (a crash between two transactions would leave a routed promise that is never dispatched)"
+HTTPNEW = {"name": "VH_PL_HttpNew", "pkg": "internal/app/plugins/http", "labels": ["C11:"], "reach": ["done"]}
+reg["C11"]["harnesses"].append(dict(HTTPNEW))
+reg["C08"]["harnesses"].append(dict(HTTPNEW))
+reg["C19"]["harnesses"].append(dict(HTTPNEW))
+reg["C11"]["explanation"] += "; every http hand-off attempt ends: the workers the real constructor builds post with a client whose overall timeout is the configured (by default positive) one, so an endpoint that accepts and never answers costs one timeout and cannot stall the dispatch cycle for ever"
+POLLNEW = {"name": "VH_PL_PollNew", "pkg": "internal/app/plugins/poll", "labels": ["C18:"], "reach": ["done"]}
+reg["C18"]["harnesses"].append(dict(POLLNEW))
+reg["C13"]["harnesses"].append(dict(POLLNEW, labels=["C18:"]))
+reg["C18"]["explanation"] += "; the real constructor gives the registration and departure queues one slot per admitted connection (a departure can then always be queued), shares them between listener side and worker and limits the registry to the configured number of connections"
+
+# ---- wiring (fourth session): the steps that make the verified units the server's behaviour
+REGD = {"name": "VH_G_Registered", "pkg": CO, "labels": ["C11:"], "reach": ["done"]}
+reg["C11"]["harnesses"].append(dict(REGD))
+for k in ("C04", "C07", "C09", "C10"):
+    reg[k]["harnesses"].append(dict(REGD, labels=["C11:serve-registers"]))
+reg["C11"]["explanation"] += "; wiring: the five background coroutine constructors the lemmas are about are each added exactly once by cmd/serve's registration block (read from its SSA), and the default batch sizes are positive"
+CFGW = {"name": "VH_CFG_AIOSubsystems", "pkg": "cmd/config", "labels": ["C06:", "C08:", "C11:", "C12:"], "reach": ["done", "no-store"]}
+for k in ("C06", "C08", "C11", "C19"):
+    reg[k]["harnesses"].append(dict(CFGW))
+reg["C08"]["explanation"] += "; wiring: the real Config.AIOSubsystems instantiates exactly the enabled subsystems (router and sender enabled by default) and exactly one store for every combination of enable flags"
+GNEW = {"name": "VH_G_New", "pkg": GRPC, "labels": ["C15:"], "reach": ["done"]}
+reg["C15"]["harnesses"].append(dict(GNEW))
+reg["C13"]["harnesses"].append(dict(GNEW))
+reg["C15"]["explanation"] += "; wiring: the real grpc.New registers all six services, each on a handler wired to the kernel"
+PGNEW = {"name": "VH_ST_PgNew", "pkg": PG, "labels": ["C06:", "C12:", "C16:"], "reach": ["done"]}
+for k in ("C06", "C12", "C16", "C17"):
+    reg[k]["harnesses"].append(dict(PGNEW))
+reg["C16"]["explanation"] += "; the real Postgres constructor opens exactly the configured database and builds one worker per configured worker on the shared handle, each with its own flush signal, with a pool of at least one connection per worker"
+reg["C11"]["harnesses"].append(dict(HTTPPL, labels=["C11:", "C08:http-plugin-constructs"]))
+for k in ("C08", "C19"):
+    for h in reg[k]["harnesses"]:
+        if h["name"] == "VH_PL_HttpProcess":
+            h["labels"] = sorted(set(h["labels"] + ["C11:http-hand-off-attempt"]))
